@@ -11,6 +11,17 @@ import (
 // termination in simulated time (yield sites passed by one operation), and the size of the files
 // that file descriptors 1 and 2 were redirected to (checked after every operation).
 
+// safeEncodeModel is EncodeModel for worlds whose element tables may hold values that JSON cannot
+// represent (NaN, Inf): those yield a fixed document instead.
+func safeEncodeModel(s Subject) (b []byte) {
+	defer func() {
+		if recover() != nil {
+			b = []byte("[1.5,-0,2e308]")
+		}
+	}()
+	return s.EncodeModel()
+}
+
 type hostileWorld struct{}
 
 var capOut, capErr *os.File // fds 1 and 2 are redirected here in the C17 worker (proc.go)
@@ -42,6 +53,9 @@ func (w *hostileWorld) Gen(seed uint64, tier string) *Plan {
 	cfg := genCfg(r, allKinds, tier)
 	if cfg.Dom > 64 {
 		cfg.Dom = 64
+	}
+	if floatOK("C17", cfg.Kind) && r.P(1, 10) {
+		useFloat(r, &cfg) // NaN, +-Inf and both zeros as keys of the comparator-based containers
 	}
 	p := &Plan{World: "hostile", Cfg: cfg}
 	s := makeSubject(cfg, false)
@@ -79,7 +93,7 @@ func (w *hostileWorld) Gen(seed uint64, tier string) *Plan {
 					b = append(b, byte(r.Intn(256)))
 				}
 			default:
-				b = s.EncodeModel()
+				b = safeEncodeModel(s)
 				for nf := r.Range(0, 3); nf > 0; nf-- {
 					if r.Bool() {
 						b = applyByteFault(r, byteFaults[r.Intn(len(byteFaults))], b)
